@@ -180,13 +180,22 @@ impl HtmlFilterBodyAction {
     }
 
     pub fn end(&mut self) -> Vec<u8> {
-        let mut to_return = self.last_buffer.clone();
+        // Buffered elements come first in the document (oldest buffer first), then the unparsed tail
+        let mut buffers = Vec::new();
         let mut buffer = self.current_buffer.as_ref();
 
         while buffer.is_some() {
-            to_return.extend_from_slice(buffer.unwrap().buffer.as_bytes());
+            buffers.push(buffer.unwrap().buffer.as_bytes());
             buffer = buffer.unwrap().previous.as_ref();
         }
+
+        let mut to_return = Vec::new();
+
+        for buffer in buffers.into_iter().rev() {
+            to_return.extend_from_slice(buffer);
+        }
+
+        to_return.extend_from_slice(self.last_buffer.as_slice());
 
         to_return
     }
